@@ -330,6 +330,24 @@ def pippenger_harness(rep, cfg, modpath, name, hook, n, nsym, bounds, backend=No
         lemma_failure(rec, e, cfg, "multiscalar" if n <= 3 else None, n)
     except ir.Unsupported as e:
         rec["status"] = "inconclusive"; rec["why"] = "unsupported IR: " + str(e)[:400]
+        # The symbolic run stopped (no verdict).  Before giving up, structured scalars whose recoding hits the extreme digits of every width
+        # are run through the natively built function; a wrong native result is a real violation (found by search, not by the solver - said
+        # so in the record); a right one leaves the harness inconclusive.
+        try:
+            from vp import native
+            from llsym import fconst
+            P3 = fconst.ed_mul(3, (fconst.BX, fconst.BY)); pt = compress_py(P3)
+            cands = [0x80, int.from_bytes(b"\x80" * 31 + b"\x00", "little"), int.from_bytes(b"\x7f" * 31 + b"\x00", "little"), 0x8080, 0x20, 0x40, 1, (1 << 252) + 0x8080]
+            for cv in cands:
+                sb = int(cv).to_bytes(32, "little") + bytes(32) * (n - 1)
+                got = native.run(cfg, [({"vp_g_pippenger": "g_opt_pippenger"}.get(hook, "g_opt_pippenger_dispatch"), [sb, pt * n, (0).to_bytes(8, "little")])], timeout=600)[0]
+                want = b"\x01" + compress_py(fconst.ed_mul((3 * cv) % fconst.L, (fconst.BX, fconst.BY)))
+                if isinstance(got, bytes) and got != want:
+                    rec["status"] = "violation"; rec["reproduced"] = True
+                    rec["replay"] = dict(witness_source="search over structured scalars on the natively built code after the symbolic run stopped (not a solver model)", scalar_0=hex(cv), other_scalars="0", points="%d x 3B" % n, native_result=got.hex(), expected=want.hex())
+                    rec["why"] += " | natively: %d-term Pippenger with scalar_0 = %s, the others 0, points 3B returns a point different from %s * 3B" % (n, hex(cv), hex(cv))
+                    break
+        except Exception as e2: rec["native_fallback"] = "native runner failed: " + str(e2)[:200]
     except PanicReached as e:
         rec["status"] = "violation"; rec["why"] = "panic reached: " + str(e)
     rec["wall_s"] = round(time.time() - t0, 3)
